@@ -192,7 +192,7 @@ fn run_node_variant(variant: &str, a: &mut Allocator, node: NodePtr) -> String {
                 None => "ok none".to_string(),
             }
         }
-        "intern" => match intern_tree(a, node) {
+        "intern" | "intern24" => match intern_tree(a, node) {
             Ok(t) => format!("ok {} {} {}", hex::encode(t.tree_hash()), t.atoms.len(), t.pairs.len()),
             Err(e) => fmt_err(&e),
         },
@@ -417,7 +417,8 @@ fn node_variant(rng: &mut Rng, d: &[DNode]) -> (String, Vec<DNode>) {
             (format!("op:{}:{}", nm as u8, b), d2)
         }
         3 | 4 => ("cache".to_string(), d.to_vec()),
-        _ => ("intern".to_string(), d.to_vec()),
+        // `intern24`: same implementation call; the model side composes C24's interning model with the cache hasher
+        _ => ((if rng.chance(1, 2) { "intern" } else { "intern24" }).to_string(), d.to_vec()),
     }
 }
 
@@ -453,7 +454,7 @@ pub fn generate(name: &str, rng: &mut Rng, n: usize, tier: &str) -> Vec<String> 
             for v in 0..=40u64 {
                 for heap in [false, true] {
                     let leaf = if heap { DNode::H(int_atom(v)) } else { DNode::A(int_atom(v)) };
-                    for var in ["costed:0:1152921504606846976", "costed:1:1152921504606846976", "cache", "intern"] {
+                    for var in ["costed:0:1152921504606846976", "costed:1:1152921504606846976", "cache", "intern", "intern24"] {
                         out.push(format!("THASHDAG t{} {} {}", id, var, render_dag(&[leaf.clone()])));
                         id += 1;
                     }
@@ -463,14 +464,14 @@ pub fn generate(name: &str, rng: &mut Rng, n: usize, tier: &str) -> Vec<String> 
                 }
             }
             for l in PAD_LENS {
-                for var in ["costed:0:1152921504606846976", "cache", "intern"] {
+                for var in ["costed:0:1152921504606846976", "cache", "intern", "intern24"] {
                     out.push(format!("THASHDAG t{} {} {}", id, var, render_dag(&[DNode::A(rng.bytes(l))])));
                     id += 1;
                 }
             }
             for (k, left) in [(if thorough { 3000 } else { 600 }, true), (if thorough { 3000 } else { 600 }, false)] {
                 let d = spine(rng, k, left);
-                for var in ["costed:1:1152921504606846976", "cache", "intern"] {
+                for var in ["costed:1:1152921504606846976", "cache", "intern", "intern24"] {
                     out.push(format!("THASHDAG t{} {} {}", id, var, render_dag(&d)));
                     id += 1;
                 }
@@ -481,7 +482,7 @@ pub fn generate(name: &str, rng: &mut Rng, n: usize, tier: &str) -> Vec<String> 
                     let t = crate::trees::random_tree(rng, 40, 70);
                     let d = tree_to_dag(&t);
                     let (var, d2) = node_variant(rng, &d);
-                    if var.starts_with("op") {
+                    if var.starts_with("op") || var == "intern24" {
                         out.push(format!("THASHDAG t{} {} {}", id, var, render_dag(&d2)));
                     } else {
                         out.push(format!("THASH t{} {} {}", id, var, crate::trees::to_hex(&t)));
